@@ -44,6 +44,12 @@ func main() {
 		if err := genRetries(p, l); err != nil {
 			return err
 		}
+		if err := genBudgets(p, l); err != nil {
+			return err
+		}
+		if err := genAnswerLoopOrder(p, pm, l); err != nil {
+			return err
+		}
 		if err := genLookupCacheOps(p, l); err != nil {
 			return err
 		}
@@ -602,4 +608,109 @@ func genCacheShapes(p *gen.Pkg, l *gen.Lean) error {
 	l.BoolDef("insertAllocatesFreshNode", true, "cache.go insert: evicts with c.remove(c.head) and links a newly allocated node (no node is re-keyed)")
 	l.Raw(fmt.Sprintf("/-- cache.go: methods returning pointers into nodes (pointer stability matters for these: `SSV.C17.node_key_stable`) -/\ndef entryPointerAPIs : List String := %s\n", gen.LeanStrList(ptrAPIs)))
 	return nil
+}
+
+// ---- where the lookup timeout is armed: one fresh budget per transport ----
+
+func genBudgets(p *gen.Pkg, l *gen.Lean) error {
+	type site struct {
+		fn, stmt string
+		first    bool
+	}
+	var sites []site
+	for _, f := range p.Files {
+		for _, d := range f.Decls {
+			fd, ok := d.(*ast.FuncDecl)
+			if !ok || fd.Body == nil {
+				continue
+			}
+			walk(fd.Body, func(n ast.Node, stack []ast.Node) {
+				ce, ok := n.(*ast.CallExpr)
+				if !ok {
+					return
+				}
+				fn := p.Src(ce.Fun)
+				if fn != "context.WithTimeout" && fn != "context.WithDeadline" && fn != "context.WithTimeoutCause" && fn != "context.WithDeadlineCause" {
+					return
+				}
+				st := ""
+				first := false
+				if len(fd.Body.List) > 0 {
+					if as, ok := fd.Body.List[0].(*ast.AssignStmt); ok && len(as.Rhs) == 1 && as.Rhs[0] == ast.Expr(ce) {
+						first = true
+						st = p.Src(as)
+					}
+				}
+				if st == "" {
+					st = p.Src(ce)
+				}
+				sites = append(sites, site{fd.Name.Name, st, first})
+			})
+		}
+	}
+	want := map[string]bool{"sendQueriesUDP": false, "sendQueriesTCP": false}
+	for _, s := range sites {
+		if _, ok := want[s.fn]; !ok {
+			return fmt.Errorf("dns: a deadline is armed in %s (%s); the model gives each transport its own budget, armed in sendQueriesUDP and sendQueriesTCP only", s.fn, s.stmt)
+		}
+		if !s.first || s.stmt != "ctx, cancel := context.WithTimeout(ctx, lookupTimeout)" {
+			return fmt.Errorf("dns %s: unrecognised deadline statement %q (expected `ctx, cancel := context.WithTimeout(ctx, lookupTimeout)` as the first statement)", s.fn, s.stmt)
+		}
+		if want[s.fn] {
+			return fmt.Errorf("dns %s: more than one deadline", s.fn)
+		}
+		want[s.fn] = true
+	}
+	for fn, ok := range want {
+		if !ok {
+			return fmt.Errorf("dns %s: does not arm its own lookupTimeout (`ctx, cancel := context.WithTimeout(ctx, lookupTimeout)` expected as the first statement)", fn)
+		}
+	}
+	l.BoolDef("udpOwnBudget", true, "dns.go sendQueriesUDP: first statement arms its own context.WithTimeout(ctx, lookupTimeout); no other deadline in the package")
+	l.BoolDef("tcpOwnBudget", true, "dns.go sendQueriesTCP: first statement arms its own context.WithTimeout(ctx, lookupTimeout) (a fresh budget after the UDP phase, shared by the TCP attempts)")
+	return nil
+}
+
+// ---- the answer loop: header, TTL minimum, then the record body (so that every answer record, also
+// CNAME/other types and records whose body fails to parse, bounds the expiry) ----
+
+func genAnswerLoopOrder(p *gen.Pkg, pm *ast.FuncDecl, l *gen.Lean) error {
+	for _, st := range pm.Body.List {
+		fs, ok := st.(*ast.ForStmt)
+		if !ok || !strings.Contains(p.Src(fs.Body), "parser.AnswerHeader()") {
+			continue
+		}
+		var kinds []string
+		for _, s := range fs.Body.List {
+			src := p.Src(s)
+			switch {
+			case strings.HasPrefix(src, "answerHeader, err := parser.AnswerHeader()"):
+				kinds = append(kinds, "header")
+			case strings.HasPrefix(src, "if err != nil {") && strings.Contains(src, "dnsmessage.ErrSectionDone"):
+				kinds = append(kinds, "header-err")
+			case strings.HasPrefix(src, "ttl := now.Add("):
+				kinds = append(kinds, "ttl")
+			case strings.HasPrefix(src, "if r.expiresAt.IsZero() || r.expiresAt.After(ttl)"):
+				kinds = append(kinds, "min")
+			case strings.HasPrefix(src, "switch answerHeader.Type {"):
+				kinds = append(kinds, "body")
+				sw := s.(*ast.SwitchStmt)
+				for _, cc := range sw.Body.List {
+					for _, b := range cc.(*ast.CaseClause).Body {
+						if bs, ok := b.(*ast.BranchStmt); ok {
+							return fmt.Errorf("parseMsg answer loop: %s inside the record switch", bs.Tok)
+						}
+					}
+				}
+			default:
+				return fmt.Errorf("parseMsg answer loop: unrecognised statement %q", src)
+			}
+		}
+		if strings.Join(kinds, ",") != "header,header-err,ttl,min,body" {
+			return fmt.Errorf("parseMsg answer loop: statement order %v, the model mirrors [header, header-err, ttl, min, body]", kinds)
+		}
+		l.BoolDef("answerTTLBeforeBody", true, "dns.go parseMsg answer loop: the TTL minimum is taken for every answer header, before the record body is parsed or skipped")
+		return nil
+	}
+	return fmt.Errorf("parseMsg: answer loop not found")
 }
